@@ -493,7 +493,9 @@ SYNC = dict(
          "thorough": [dict(module="MPTSync_MC", cfg="MPTSync_genbig.cfg", workers=8, timeout=3000)]},
     exec_args=lambda tier, seed: (["-n", 600] if tier == "quick" else ["-n", 20000]),
     flags={"C17": {"shape", "plan", "hasmissing", "allmissing", "missingkeys", "lookup", "repairres", "repairroot",
-                   "repaircontent", "donorchanged", "repairkeys", "unknown-op"}},
+                   "repaircontent", "donorchanged", "repairkeys", "unknown-op"},
+           # the repaired trie saves what it merged in: nodes of foreign origin under the hash of their own content
+           "C14": {"savedkeys"}},
     distinct=lambda s: s.get("distinct_plans", 0),
     rule="plans = (a) every (content, set of removed non-root nodes) over all contents with 2..4 (thorough: 2..6) entries of a "
          "7-path universe, emitted by TLC from MPTSync.tla; (b) seeded random larger tries with single-node, subtree and scattered "
@@ -796,7 +798,7 @@ NODEDB = dict(
 
 FAMILIES = {"C01": MPT, "C02": MPT, "C14": MPT, "C06": SC, "C07": SC, "C08": C08, "C03": ROUNDS, "C04": ROUNDS, "C05": ROUNDS, "C17": SYNC, "C16": C16, "C09": WMPT, "C11": WMPT, "C13": WMPT, "C10": PROOF, "C12": WPATH, "C15": CODEC, "C20": LOGRING, "C19": MERKLE, "C18": CURRENCY}
 # additional families run for a property besides its main one
-EXTRA_FAMILIES = {"C03": [NODEDB]}
+EXTRA_FAMILIES = {"C03": [NODEDB], "C14": [SYNC]}
 PROPS = dict(FAMILIES)
 
 
